@@ -123,6 +123,106 @@ theorem sortIdx_perm (keys : List Val) : (sortIdx keys).Perm (List.range keys.le
   rw [List.zipIdx_map_snd]
   simp [List.range_eq_range']
 
+/-- every sorted row index points at the key it was sorted by: the keys read in sorted-row
+order are exactly the stable sort of the keys -/
+theorem sortIdx_gather (keys : List Val) :
+    (sortIdx keys).map (fun i => keys[i]?) = (sort keys).map some := by
+  rw [← sortIdx_keys]
+  unfold sortIdx
+  simp only [List.map_map]
+  apply List.map_congr_left
+  intro p hp
+  have hp' : p ∈ keys.zipIdx := (List.mergeSort_perm _ _).mem_iff.1 hp
+  simpa using List.mem_zipIdx_iff_getElem?.1 hp'
+
+/-- `dictable.sort` orders the rows by key and ties keep the original order: for any two
+positions of the result, the earlier row's key is strictly smaller under `cmp`, or the keys
+are `cmp`-equal and the earlier row also came first in the input. -/
+theorem sortIdx_ordered (keys : List Val) :
+    (sortIdx keys).Pairwise (fun a b => ∃ ka kb, keys[a]? = some ka ∧ keys[b]? = some kb ∧
+      (cmp ka kb = .lt ∨ (cmp ka kb = .eq ∧ a < b))) := by
+  have hle : (fun a b : Val × Nat => cmpLe (keyId a) (keyId b)) = List.zipIdxLE cmpLe := by
+    funext a b; exact keyId_le a b
+  have hnd : (sortIdx keys).Pairwise (· ≠ ·) :=
+    ((sortIdx_perm keys).nodup_iff.2 List.nodup_range)
+  unfold sortIdx at *
+  rw [hle] at *
+  have hs := List.pairwise_mergeSort (le := List.zipIdxLE cmpLe)
+    (List.zipIdxLE_trans cmpLe_trans) (List.zipIdxLE_total cmpLe_total) keys.zipIdx
+  rw [List.pairwise_map] at hnd ⊢
+  have hmem : ∀ p ∈ keys.zipIdx.mergeSort (List.zipIdxLE cmpLe), keys[p.2]? = some p.1 := by
+    intro p hp
+    exact List.mem_zipIdx_iff_getElem?.1 ((List.mergeSort_perm _ _).mem_iff.1 hp)
+  refine ((hs.and hnd).imp_of_mem ?_)
+  intro a b ha hb ⟨hab, hne⟩
+  refine ⟨a.1, b.1, hmem a ha, hmem b hb, ?_⟩
+  have hsw := cmp_antisymm b.1 a.1
+  simp only [List.zipIdxLE] at hab
+  split at hab
+  · rename_i h1
+    split at hab
+    · rename_i h2
+      simp only [cmpLe] at h1 h2
+      rw [hsw] at h2
+      have hab' : a.2 ≤ b.2 := by simpa using hab
+      cases h : cmp a.1 b.1 <;> simp [h, Ordering.swap] at h1 h2 ⊢
+      omega
+    · rename_i h2
+      simp only [cmpLe] at h1 h2
+      rw [hsw] at h2
+      cases h : cmp a.1 b.1 <;> simp [h, Ordering.swap] at h1 h2 ⊢
+  · simp at hab
+
+/-- idempotence: sorting a table that is already in sorted order leaves every row in place -/
+theorem sortIdx_idem (keys : List Val) (h : keys.Pairwise (fun a b => cmpLe a b = true)) :
+    sortIdx keys = List.range keys.length := by
+  have hle : (fun a b : Val × Nat => cmpLe (keyId a) (keyId b)) = List.zipIdxLE cmpLe := by
+    funext a b; exact keyId_le a b
+  unfold sortIdx
+  rw [hle, List.mergeSort_of_pairwise, List.zipIdx_map_snd]
+  · simp [List.range_eq_range']
+  · rw [List.pairwise_iff_getElem] at h ⊢
+    intro i j hi hj hij
+    simp only [List.length_zipIdx] at hi hj
+    have := h i j hi hj hij
+    simp only [List.getElem_zipIdx, List.zipIdxLE, this, if_true]
+    split <;> simp <;> omega
+
+/-! ### explicit value orders (`dictable.sort(col = [v0, v1, ...])`) -/
+
+/-- a listed value gets its position in the list as sort rank (the list has no `==`-repeats) -/
+theorem byvalRank_listed (vals : List Cell) (i : Nat) (hi : i < vals.length)
+    (hrefl : vals[i].pyEq vals[i] = true)
+    (hnd : ∀ j, (hj : j < i) → (vals[j]'(Nat.lt_trans hj hi)).pyEq vals[i] = false) :
+    byvalRank vals vals[i] = i := by
+  unfold byvalRank
+  have : vals.findIdx? (fun v => v.pyEq vals[i]) = some i := by
+    rw [List.findIdx?_eq_some_iff_getElem]
+    exact ⟨hi, hrefl, fun j hj => by simp [hnd j hj]⟩
+  rw [this]
+
+/-- an unlisted value ranks after every listed one -/
+theorem byvalRank_unlisted (vals : List Cell) (x : Cell) (h : ∀ v ∈ vals, v.pyEq x = false) :
+    byvalRank vals x = vals.length := by
+  unfold byvalRank
+  have : vals.findIdx? (fun v => v.pyEq x) = Option.none := by
+    rw [List.findIdx?_eq_none_iff]; intro v hv; simp [h v hv]
+  rw [this]
+
+/-- on single-column rank keys `cmp` is the order of the ranks, so rows sort by rank: listed
+values in the given order, unlisted last, ties in original order (by `sortIdx_ordered`) -/
+theorem cmp_rankKey (a b : Nat) :
+    cmp (.list [.cell (.int a)]) (.list [.cell (.int b)]) = compare a b := by
+  have h := cmp_keyId (.list [], a) (.list [], b)
+  have : compare (4 * (a : Int)) (4 * (b : Int)) = compare a b := by
+    cases h : compare a b
+    · rw [Nat.compare_eq_lt] at h; rw [Int.compare_eq_lt]; omega
+    · rw [Nat.compare_eq_eq] at h; rw [Int.compare_eq_eq]; omega
+    · rw [Nat.compare_eq_gt] at h; rw [Int.compare_eq_gt]; omega
+  simp only [cmp, Val.norm, normList, cmpN, cmpArr, Cell.cmp, Cell.cmpSame, Cell.rank, Cell.num,
+    Cell.skey, this]
+  cases compare a b <;> rfl
+
 /-! ### non-vacuity: concrete mixed-type values -/
 
 example : cmp (.cell (.str "2")) (.cell (.int 2)) = .gt := by decide
@@ -137,6 +237,10 @@ example : cmp (.dict [("a", .cell (.int 1)), ("b", .cell (.int 2))])
 example : cmpLe (.cell (.int 1)) (.cell (.flt 4)) = true ∧
     [.cell (.int 1), .cell (.flt 4)].Sublist
       [Val.cell (.str "x"), .cell (.int 1), .cell .none, .cell (.flt 4)] := by decide
+
+/-- the hypothesis of `sortIdx_idem` is satisfiable on a mixed-type key column -/
+example : [Val.cell .none, .cell (.int 1), .cell (.flt 4), .cell .nan, .cell (.str "a")].Pairwise
+    (fun a b => cmpLe a b = true) := by decide
 
 -- evaluation tests (tests, not theorems: `List.mergeSort` is defined by well-founded recursion
 -- and does not reduce in the kernel)
